@@ -6,6 +6,7 @@ use vstd::arithmetic::power2::*;
 use vstd::arithmetic::mul::*;
 use vstd::arithmetic::div_mod::*;
 use vstd::bits::*;
+use vstd::std_specs::iter::IteratorSpec;
 verus! {
 //@ include lib/base.rs
 //@ include lib/lvr.rs
@@ -48,9 +49,53 @@ pub proof fn lemma_hv_mono(d: Seq<u64>, i: int, k: int, base: int)
     }
 }
 
+// positional notation, least significant digit first
+pub open spec fn bpw(base: int, k: int) -> int decreases k { if k <= 0 { 1 } else { base * bpw(base, k - 1) } }
+pub open spec fn lev(d: Seq<u64>, k: int, base: int) -> int
+    decreases k
+{
+    if k <= 0 { 0 } else { lev(d, k - 1, base) + d[k - 1] as int * bpw(base, k - 1) }
+}
+pub proof fn lemma_bpw_mono(base: int, i: int, k: int)
+    requires 0 <= i <= k, base >= 1
+    ensures 1 <= bpw(base, i) <= bpw(base, k)
+    decreases k
+{
+    if i == k {
+        if k > 0 { lemma_bpw_mono(base, k - 1, k - 1); assert(base * bpw(base, k - 1) >= 1) by(nonlinear_arith) requires base >= 1, bpw(base, k - 1) >= 1; }
+    } else {
+        lemma_bpw_mono(base, i, k - 1);
+        assert(base * bpw(base, k - 1) >= bpw(base, k - 1)) by(nonlinear_arith) requires base >= 1, bpw(base, k - 1) >= 1;
+    }
+}
+pub proof fn lemma_lev_mono(d: Seq<u64>, i: int, k: int, base: int)
+    requires 0 <= i <= k <= d.len(), base >= 1
+    ensures 0 <= lev(d, i, base) <= lev(d, k, base)
+    decreases k
+{
+    if k <= 0 { } else {
+        lemma_bpw_mono(base, k - 1, k - 1);
+        assert(d[k - 1] as int * bpw(base, k - 1) >= 0) by(nonlinear_arith) requires d[k - 1] as int >= 0, bpw(base, k - 1) >= 1;
+        if i == k { lemma_lev_mono(d, k - 1, k - 1, base); } else { lemma_lev_mono(d, i, k - 1, base); }
+    }
+}
+// zero digits do not change the value
+pub proof fn lemma_lev_zeros(d: Seq<u64>, i: int, k: int, base: int)
+    requires 0 <= i <= k <= d.len(), forall|j: int| i <= j < k ==> d[j] == 0
+    ensures lev(d, k, base) == lev(d, i, base)
+    decreases k
+{
+    if i < k { lemma_lev_zeros(d, i, k - 1, base); assert(0 * bpw(base, k - 1) == 0) by(nonlinear_arith); }
+}
+
+//@ import kernels mul_nx1
+//@ import kernels addmul_nx1
+
 impl<const BITS: usize, const LIMBS: usize> Uint<BITS, LIMBS> {
 //@ import core MASK
 //@ import core ZERO
+//@ import core as_limbs
+//@ import basics ONE
 
 //@ extract src/base_convert.rs fn from_base_be rewrite="from_base_be < I : IntoIterator < Item = u64 >> (" => "from_base_be(" #1 rewrite="digits : I ," => "digits: &[u64]," #1 rewrite="for digit in digits {" => "for digit_ref in digits.iter() { let digit = *digit_ref;" #1 rewrite="for limb in & mut result . limbs {" => "for limb in result.limbs.iter_mut() {" #1 rewrite="* limb = carry as u64 ;" => "*limb = #[verifier::truncate] (carry as u64);" #1
     pub fn from_base_be(
@@ -164,6 +209,167 @@ impl<const BITS: usize, const LIMBS: usize> Uint<BITS, LIMBS> {
             assert(all_valid(ds, len, bs));
         }/*-*/
 
+        Ok(result)
+    }
+//@ end
+//@ extract src/base_convert.rs fn from_base_le rewrite="from_base_le < I > (" => "from_base_le(" #1 rewrite="digits : I" => "digits: &[u64]" #1 rewrite="where I : IntoIterator < Item = u64 > ," => "" #1 rewrite="for digit in digits {" => "for digit_ref in digits.iter() { let digit = *digit_ref;" #1 rewrite="digits . into_iter ( )" => "digits.iter()" #1 rewrite="for digit in iter . by_ref ( ) {" => "while let Some(digit_ref) = iter.next() { let digit = *digit_ref;" #1 rewrite="for digit in iter {" => "while let Some(digit_ref) = iter.next() { let digit = *digit_ref;" #1
+    pub fn from_base_le(base: u64, digits: &[u64]) -> /*+*/(r:/*-*/ Result<Self, BaseConvertError>/*+*/)
+        requires Self::sized(), BITS <= usize::MAX - 63
+        ensures
+            base < 2 ==> r == Err::<Self, BaseConvertError>(BaseConvertError::InvalidBase(base)),
+            // the digit string is scanned from the least significant end; the first invalid digit or the first prefix
+            // whose value leaves [0, 2^BITS) decides the error
+            base >= 2 ==> (match r {
+                Ok(u) => u.wf() && all_valid(digits@, digits.len() as int, base as int) && u.val() as int == lev(digits@, digits.len() as int, base as int),
+                Err(BaseConvertError::InvalidDigit(d, b)) => b == base && d >= base && (exists|i: int| 0 <= i < digits.len() && digits[i] == d
+                    && all_valid(digits@, i, base as int) && #[trigger] lev(digits@, i, base as int) < pow2(BITS as nat)),
+                Err(BaseConvertError::Overflow) => exists|k: int| 1 <= k <= digits.len() && all_valid(digits@, k, base as int)
+                    && #[trigger] lev(digits@, k, base as int) >= pow2(BITS as nat),
+                Err(BaseConvertError::InvalidBase(_)) => false,
+            }),
+            // exactness: a valid string denoting a representable value is accepted
+            base >= 2 && all_valid(digits@, digits.len() as int, base as int) && lev(digits@, digits.len() as int, base as int) < pow2(BITS as nat) ==> r is Ok,/*-*/
+    {
+        if base < 2 {
+            return Err(BaseConvertError::InvalidBase(base));
+        }
+        /*+*/let ghost n = LIMBS as int; let ghost bs = base as int; let ghost ds = digits@; let ghost len = digits.len() as int;
+        let ghost m = pow2(BITS as nat) as int;
+        proof { lemma_pow2_pos(BITS as nat); lemma_pow2_64(); }/*-*/
+        if BITS == 0 {
+            /*+*/proof { lemma2_to64(); }/*-*/
+            for digit_ref in /*+*/it0:/*-*/ digits.iter()
+                /*+*/invariant
+                    bs == base as int, bs >= 2, ds == digits@, len == digits.len(), m == 1, BITS == 0,
+                    it0.seq().len() == len, forall|j: int| 0 <= j < len ==> *(#[trigger] it0.seq()[j]) == ds[j], 0 <= it0.index@ <= len,
+                    all_valid(ds, it0.index@, bs), forall|j: int| 0 <= j < it0.index@ ==> ds[j] == 0,/*-*/
+            {
+                let digit = *digit_ref;
+                /*+*/let ghost i = it0.index@;
+                proof { lemma2_to64(); assert(digit == ds[i]); lemma_lev_zeros(ds, 0, i, bs); assert(lev(ds, 0, bs) == 0); assert(lev(ds, i, bs) < pow2(BITS as nat)); }/*-*/
+                if digit >= base {
+                    return Err(BaseConvertError::InvalidDigit(digit, base));
+                }
+                if digit != 0 {
+                    /*+*/proof {
+                        lemma_bpw_mono(bs, i, i);
+                        assert(ds[i] as int * bpw(bs, i) >= 1) by(nonlinear_arith) requires ds[i] as int >= 1, bpw(bs, i) >= 1;
+                        assert(lev(ds, i + 1, bs) == lev(ds, i, bs) + ds[i] as int * bpw(bs, i));
+                        assert forall|j: int| 0 <= j < i + 1 implies (ds[j] as int) < bs by { if j == i { } }
+                        lemma_lev_mono(ds, i + 1, len, bs);
+                        assert(all_valid(ds, i + 1, bs) && lev(ds, i + 1, bs) >= pow2(BITS as nat));
+                    }/*-*/
+                    return Err(BaseConvertError::Overflow);
+                }
+            }
+            /*+*/proof { lemma_lev_zeros(ds, 0, len, bs); assert(lev(ds, 0, bs) == 0); }/*-*/
+            return Ok(Self::ZERO());
+        }
+
+        let mut iter = digits.iter();
+        let mut result = Self::ZERO();
+        let mut power = Self::ONE();
+        /*+*/let ghost mut k: int = 0;
+        let ghost mut broke = false;
+        proof { assert(lev(ds, 0, bs) == 0); assert(bpw(bs, 0) == 1); }/*-*/
+        while let Some(digit_ref) = iter.next()
+            /*+*/invariant_except_break
+                power.wf(), power.val() as int == bpw(bs, k), !broke,
+            invariant
+                n == LIMBS, bs == base as int, bs >= 2, ds == digits@, len == digits.len(), m == pow2(BITS as nat) as int, m >= 1,
+                Self::sized(), BITS <= usize::MAX - 63, BITS > 0, B == 0x1_0000_0000_0000_0000,
+                0 <= k <= len, iter.remaining().len() == len - k,
+                forall|j: int| 0 <= j < len - k ==> *(#[trigger] iter.remaining()[j]) == ds[k + j],
+                result.wf(), result.val() as int == lev(ds, k, bs), all_valid(ds, k, bs),
+            ensures
+                broke ==> bpw(bs, k) >= m,
+                !broke ==> k == len,
+            decreases len - k/*-*/
+        {
+            let digit = *digit_ref;
+            /*+*/let ghost i = k;
+            let ghost r0 = result.limbs@; let ghost p0 = power.limbs@;
+            proof {
+                k = k + 1;
+                assert(digit == ds[i]);
+                result.lemma_wf_lt(); power.lemma_wf_lt();
+                lemma_lvr_is_lv(r0, LIMBS as nat); lemma_lvr_is_lv(p0, LIMBS as nat);
+            }/*-*/
+            if digit >= base {
+                return Err(BaseConvertError::InvalidDigit(digit, base));
+            }
+
+            // Add digit to result
+            let overflow = addmul_nx1(&mut result.limbs, power.as_limbs(), digit);
+            /*+*/proof {
+                lemma_lvr_is_lv(result.limbs@, LIMBS as nat);
+                lemma_bp_is_pow2(LIMBS as nat); lemma_bp_pos(n);
+                let d = (64 * n - BITS) as nat;
+                lemma_pow2_adds(BITS as nat, d); lemma_pow2_pos(d);
+                assert(lev(ds, i + 1, bs) == lev(ds, i, bs) + ds[i] as int * bpw(bs, i));
+                lemma_mul_is_commutative(ds[i] as int, bpw(bs, i));
+                if overflow != 0 { assert((overflow as int) * bp(n) >= m) by(nonlinear_arith) requires overflow as int >= 1, bp(n) == m * pow2(d) as int, pow2(d) as int >= 1, m >= 1; lemma_lvr_bound(result.limbs@, 0, n); }
+                else { assert(0 * bp(n) == 0) by(nonlinear_arith); }
+                result.lemma_wf_iff_lt();
+                assert forall|j: int| 0 <= j < i + 1 implies (ds[j] as int) < bs by { if j == i { } }
+                lemma_lev_mono(ds, i + 1, len, bs);
+            }/*-*/
+            if overflow != 0 || result.limbs[LIMBS - 1] > Self::MASK() {
+                return Err(BaseConvertError::Overflow);
+            }
+
+            // Update power
+            let overflow = mul_nx1(&mut power.limbs, base);
+            /*+*/proof {
+                lemma_lvr_is_lv(power.limbs@, LIMBS as nat);
+                let d = (64 * n - BITS) as nat;
+                lemma_mul_is_commutative(bpw(bs, i), bs);
+                if overflow != 0 { assert((overflow as int) * bp(n) >= m) by(nonlinear_arith) requires overflow as int >= 1, bp(n) == m * pow2(d) as int, pow2(d) as int >= 1, m >= 1; lemma_lvr_bound(power.limbs@, 0, n); }
+                else { assert(0 * bp(n) == 0) by(nonlinear_arith); }
+                power.lemma_wf_iff_lt();
+            }/*-*/
+            if overflow != 0 || power.limbs[LIMBS - 1] > Self::MASK() {
+                // Following digits must be zero
+                /*+*/proof { broke = true; }/*-*/
+                break;
+            }
+        }
+        /*+*/let ghost k0 = k;/*-*/
+        while let Some(digit_ref) = iter.next()
+            /*+*/invariant
+                bs == base as int, bs >= 2, ds == digits@, len == digits.len(), m == pow2(BITS as nat) as int, m >= 1,
+                0 <= k0 <= k <= len, iter.remaining().len() == len - k,
+                forall|j: int| 0 <= j < len - k ==> *(#[trigger] iter.remaining()[j]) == ds[k + j],
+                result.wf(), result.val() as int == lev(ds, k0, bs), all_valid(ds, k, bs),
+                forall|j: int| k0 <= j < k ==> ds[j] == 0,
+                k0 < len ==> bpw(bs, k0) >= m,
+            ensures k == len
+            decreases len - k/*-*/
+        {
+            let digit = *digit_ref;
+            /*+*/let ghost i = k;
+            proof {
+                k = k + 1;
+                assert(digit == ds[i]);
+                result.lemma_wf_lt();
+                lemma_lev_zeros(ds, k0, i, bs);
+            }/*-*/
+            if digit >= base {
+                return Err(BaseConvertError::InvalidDigit(digit, base));
+            }
+            if digit != 0 {
+                /*+*/proof {
+                    lemma_bpw_mono(bs, k0, i);
+                    assert(ds[i] as int * bpw(bs, i) >= m) by(nonlinear_arith) requires ds[i] as int >= 1, bpw(bs, i) >= bpw(bs, k0), bpw(bs, k0) >= m, bpw(bs, i) >= 1;
+                    assert(lev(ds, i + 1, bs) == lev(ds, i, bs) + ds[i] as int * bpw(bs, i));
+                    lemma_lev_mono(ds, 0, i, bs);
+                    assert forall|j: int| 0 <= j < i + 1 implies (ds[j] as int) < bs by { if j == i { } }
+                    lemma_lev_mono(ds, i + 1, len, bs);
+                }/*-*/
+                return Err(BaseConvertError::Overflow);
+            }
+        }
+        /*+*/proof { lemma_lev_zeros(ds, k0, len, bs); }/*-*/
         Ok(result)
     }
 //@ end
